@@ -113,6 +113,48 @@ def same_raise_set(got_it: Interp, want_it: Interp, max_atoms=14) -> bool | None
     return True
 
 
+def equal_where_no_raise(got, want, got_it: Interp, want_it: Interp, max_atoms=10) -> bool | None:
+    """Values compared by cases: over every truth assignment of the atomic tests of both raise conditions and of the
+    conditionals inside the two values, either both evaluations raise, or neither does and the values - with the
+    conditionals resolved by the assignment - are equal.  None when undecided (too many atoms, inconclusive equality)."""
+    from ..eqterms import Inconclusive
+    from ..terms import mk_ite as _mk_ite
+    a, b = raise_condition(got_it), raise_condition(want_it)
+    atoms: dict = {}
+    _collect_atoms(a, atoms)
+    _collect_atoms(b, atoms)
+    for t in (got, want):
+        for s2 in walk(t):
+            if s2[0] == "ite":
+                _collect_atoms(s2[1], atoms)
+    if len(atoms) > max_atoms:
+        return None
+
+    def resolve(t, v):
+        def rw(s2):
+            if s2[0] == "ite":
+                return s2[2] if _bool_eval(s2[1], dict(atoms), v) else s2[3]
+            return None
+        prev = None
+        while prev != t:
+            prev = t
+            t = subst(t, rw)
+        return t
+    n_atoms = len(atoms)
+    for v in range(1 << n_atoms):
+        ra, rb = _bool_eval(a, dict(atoms), v), _bool_eval(b, dict(atoms), v)
+        if ra != rb:
+            return False
+        if ra:
+            continue
+        try:
+            if not equal(resolve(got, v), resolve(want, v)):
+                return False
+        except Inconclusive:
+            return None
+    return True
+
+
 def compare_guards(rep, R, site, k, got_it, want_it, what):
     got, want = guard_list(got_it), guard_list(want_it)
     unmatched = [w for w in want if not [g for g in got if equal(g[0], w[0]) and len(g[2]) == len(w[2])
@@ -211,6 +253,35 @@ def rule_hook(prog, rep):
             continue
         path, val = setattrs[name]
         d = ("sub", ("attr", CLS, "__dict__"), C(name))
+
+        # `m = cls.__dict__.get(name, SENTINEL)` with `m is SENTINEL` as the absence test is the `name in cls.__dict__`
+        # reading with m == cls.__dict__[name] where present
+        def _is_get(t_):
+            return t_[0] == "call" and t_[1][0] == "attr" and t_[1][2] == "get" and len(t_[2]) == 2 and not t_[3] and \
+                t_[2][1][0] == "ext" and t_[2][1][1].startswith("flowjax")
+
+        def _sentinel_norm(t_):
+            from ..terms import mk_not as _mk_not
+            if not isinstance(t_, tuple) or not t_ or not isinstance(t_[0], str):
+                return tuple(_sentinel_norm(x_) for x_ in t_) if isinstance(t_, tuple) else t_
+            if t_[0] == "cmp" and t_[1] in ("is", "is not"):
+                for g_, o_ in ((t_[2], t_[3]), (t_[3], t_[2])):
+                    if isinstance(g_, tuple) and _is_get(g_) and o_ == g_[2][1]:
+                        present = ("cmp", "in", g_[2][0], g_[1][1])
+                        return present if t_[1] == "is not" else _mk_not(present)
+            if _is_get(t_):
+                return ("sub", t_[1][1], t_[2][0])
+            return tuple(_sentinel_norm(x_) if isinstance(x_, tuple) else x_ for x_ in t_)
+
+        def _demorgan(t_):
+            from ..terms import mk_not as _mk_not
+            if t_[0] == "not" and t_[1][0] == "or":
+                return ("and", tuple(_demorgan(_mk_not(x_)) for x_ in t_[1][1]))
+            if t_[0] == "not" and t_[1][0] == "not":
+                return _demorgan(t_[1][1])
+            return t_
+        val = _sentinel_norm(val)
+        path = [_demorgan(_sentinel_norm(p_)) for p_ in path]
         want_val = ("call", ("ext", BJ + "_unwrap_check_and_cast"), (), (("method", d),))
         okv = equal(val, want_val)
         want_path = ("and", (("cmp", "in", C(name), ("attr", CLS, "__dict__")),
@@ -308,6 +379,21 @@ def rule_wrapper(prog, rep, R, guards=False):
     wi = Interp(prog, no_inline=noin)
     fnref = ast.parse(WRAPPER_REF).body[0]
     want = wi.reify(wi.apply_def(fnref, Env(prelude(prog)), (m, None, None), [M], {}))
+    by_cases = None
+    try:
+        if not equal(got, want):
+            by_cases = equal_where_no_raise(got, want, gi, wi)
+    except Exception:  # noqa: BLE001
+        by_cases = None
+    if by_cases is True:
+        # the checks are split into cases differently: decided by a truth table over the atomic tests
+        rep.holds(R, site, "_unwrap_check_and_cast:forwarded-values",
+                  "raises in exactly the same cases as the reference and forwards the same values in every other case (truth "
+                  "table over the atomic tests)")
+        if guards:
+            for (wc, wh, wp) in guard_list(wi):
+                rep.holds(R, site, f"_unwrap_check_and_cast:raises-if({show(wc, 90)})", "same raise set (truth table)")
+        return
     compare(rep, R, site, "_unwrap_check_and_cast:forwarded-values", got, want, "wrapper")
     if guards:
         compare_guards(rep, R, site, "_unwrap_check_and_cast", gi, wi, "argument check")
